@@ -448,6 +448,7 @@ pub fn pick_entry<'a>(rng: &mut Rng, o: &WorldOpts) -> &'a Entry {
         .filter(|e| !e.has("stopl") || o.want_tags.contains(&"stopl"))
         // allow_invalid_utf8 grammars (special tokens are not kept apart from text there): C10 only
         .filter(|e| !e.has("bytesmode") || o.want_tags.contains(&"bytesmode"))
+        .filter(|e| !e.has("temp") || o.want_tags.contains(&"temp"))
         .collect();
     assert!(!cands.is_empty());
     if !o.prefer_tags.is_empty() && rng.chance(0.7) {
@@ -1099,6 +1100,9 @@ fn gen_c11_constraint(rng: &mut Rng, seed: u64, index: u64, long: bool) -> Scena
     let mut o = WorldOpts::default();
     o.avoid_tags = vec!["heavy", "tokref"];
     o.prefer_tags = vec!["stopc", "ff"];
+    if rng.chance(0.1) {
+        o.want_tags = vec!["temp"];
+    }
     let (world, productive) = gen_world(rng, &o);
     let ff = world.canonical && rng.chance(0.5);
     let mut sc = base("C11", "cache_constraint", seed, index, world, productive);
@@ -2009,6 +2013,10 @@ fn gen_c17(rng: &mut Rng, seed: u64, index: u64, long: bool) -> Scenario {
     }
     let mut o = WorldOpts::default();
     o.canonical = Some(rng.chance(0.5));
+    if sub >= 7 && rng.chance(0.25) {
+        // constraint twins on grammars that set the sampling temperature
+        o.want_tags = vec!["temp"];
+    }
     let (world, productive) = gen_world(rng, &o);
     let nv = world.vocab.words.len();
     let exact = nv.div_ceil(32);
